@@ -11,6 +11,7 @@
 //        ops: h<e>.<k> hash header k of epoch e | C clearHeaderCache | E clearEthashCache |
 //             P<e>.<k> insertHeaderCacheEntry(header, true hash) | F<e>.<k> VbkBlock getHash/setters/flip test
 //        every result is compared with progPowHash(header, light) computed without any cache.
+//   <id> blk <seed> <ops..>                         one reused VbkBlock object: get/set/deserialise-into/assign/precalc
 //   <id> powhit <threads> <seed> <n>                header-cache hit path only (no vProgPoW evaluation; TSan)
 // `!<id> ...` = a value differs from the pure function (direct oracle).
 #include <algorithm>
@@ -219,6 +220,72 @@ static void flip_test(const std::string& id, const std::vector<uint8_t>& raw) {
   }
 }
 
+// one VbkBlock OBJECT reused through a sequence of operations; after every step getHash/getId/getShortHash must be
+// the cache-free hash of the bytes the object now holds.
+//   g getHash | s<field 0..8> setter | p setPrecalculatedHash(true hash)
+//   d<e>.<k> DeserializeFromRaw into the object | D<e>.<k> same with the precalculated (true) hash
+//   v<e>.<k> / V<e>.<k> DeserializeFromVbkEncoding without / with precalculated hash
+//   a<e>.<k> copy-assign from a fresh block | A<e>.<k> copy-assign from a block that memoised its hash
+//   m<e>.<k> move-assign from a block that memoised its hash
+static std::string run_blk(const std::string& id, uint64_t seed, const std::vector<std::string>& ops) {
+  setEthashCache(std::unique_ptr<EthashCacheI>(new TinyEthash<6>()));
+  setProgpowHeaderCache(std::unique_ptr<ProgpowHeaderCacheI>(new TinyHeader(8, 1)));
+  g_bad = 0;
+  VbkBlock b = block_of(header_of(0, 1, seed));
+  int step = 0;
+  for (auto& o : ops) {
+    step++;
+    std::vector<uint8_t> hdr;
+    if (o.size() > 1 && o.find('.') != std::string::npos) {
+      auto dot = o.find('.');
+      hdr = header_of((uint32_t)std::stoul(o.substr(1, dot - 1)), (uint32_t)std::stoul(o.substr(dot + 1)), seed);
+    }
+    ValidationState st;
+    switch (o[0]) {
+      case 'g': break;
+      case 's': {
+        int field = o[1] - '0';
+        switch (field) {
+          case 0: b.setHeight(b.getHeight() ^ 1); break;
+          case 1: b.setVersion((int16_t)(b.getVersion() ^ 1)); break;
+          case 2: { auto x = b.getPreviousBlock().asVector(); x[0] ^= 1; b.setPreviousBlock(uint96(x)); break; }
+          case 3: { auto x = b.getPreviousKeystone().asVector(); x[1] ^= 2; b.setPreviousKeystone(VbkBlock::keystone_t(x)); break; }
+          case 4: { auto x = b.getSecondPreviousKeystone().asVector(); x[2] ^= 4; b.setSecondPreviousKeystone(VbkBlock::keystone_t(x)); break; }
+          case 5: { auto x = b.getMerkleRoot().asVector(); x[3] ^= 8; b.setMerkleRoot(uint128(x)); break; }
+          case 6: b.setTimestamp(b.getTimestamp() ^ 16); break;
+          case 7: b.setDifficulty(b.getDifficulty() ^ 32); break;
+          default: b.setNonce(b.getNonce() ^ 64); break;
+        }
+        break;
+      }
+      case 'p': setPrecalculatedHash(b, cold(b.toRaw())); break;
+      case 'd': { ReadStream rs(hdr); DeserializeFromRaw(rs, b, st); break; }
+      case 'D': { ReadStream rs(hdr); DeserializeFromRaw(rs, b, st, cold(hdr)); break; }
+      case 'v': case 'V': {
+        WriteStream w;
+        block_of(hdr).toVbkEncoding(w);
+        ReadStream rs(w.data());
+        if (o[0] == 'v') DeserializeFromVbkEncoding(rs, b, st);
+        else DeserializeFromVbkEncoding(rs, b, st, cold(hdr));
+        break;
+      }
+      case 'a': { VbkBlock src = block_of(hdr); b = src; break; }
+      case 'A': { VbkBlock src = block_of(hdr); src.getHash(); b = src; break; }
+      case 'm': { VbkBlock src = block_of(hdr); src.getHash(); b = std::move(src); break; }
+      default: return "UNKNOWN-BLK-OP";
+    }
+    auto raw = b.toRaw();
+    if (!hdr.empty() && raw != hdr) { g_bad++; vh::oracle_fail(id, "step " + std::to_string(step) + " " + o + ": object does not hold the deserialised/assigned header"); }
+    uint192 want = cold(raw);
+    std::string at = "step " + std::to_string(step) + " (" + o + ")";
+    expect_eq(id, b.getHash(), want, "getHash at " + at);
+    if (!(b.getShortHash() == want.trimLE<VbkBlock::short_hash_t::size()>())) { g_bad++; vh::oracle_fail(id, "getShortHash/getId at " + at); }
+    // a second object holding identical bytes must report the identical hash
+    expect_eq(id, block_of(raw).getHash(), b.getHash(), "fresh object with identical bytes at " + at);
+  }
+  return g_bad ? "bad" : "ok " + std::to_string(ops.size());
+}
+
 static std::string run_pow(const std::string& id, int threads, int ethsize, size_t hdrsize, uint64_t seed,
                            const std::vector<std::string>& ops) {
   if (ethsize == 1) setEthashCache(std::unique_ptr<EthashCacheI>(new TinyEthash<1>()));
@@ -298,6 +365,7 @@ int main() {
     if (op == "lrumt") return run_lrumt(id, std::stoi(a[0]), std::stoull(a[1]), std::stoi(a[2]));
     if (op == "pow") return run_pow(id, std::stoi(a[0]), std::stoi(a[1]), std::stoul(a[2]), std::stoull(a[3]),
                                     std::vector<std::string>(a.begin() + 4, a.end()));
+    if (op == "blk") return run_blk(id, std::stoull(a[0]), std::vector<std::string>(a.begin() + 1, a.end()));
     if (op == "powhit") return run_powhit(id, std::stoi(a[0]), std::stoull(a[1]), std::stoi(a[2]));
     return "UNKNOWN-OP";
   });
